@@ -1310,7 +1310,10 @@ class Compiler:
         error_assignment = template(
             "econtext[key] = cls(__exc, __tokens[__token][1:3] "
             "if __token is not None else (None, None))\n"
-            "if handler is not None: handler(__exc)",
+            "if handler is not None: handler(__exc)\n"
+            # the failure ends here: the call sites recorded for it
+            # must not show up in the message of a later one
+            "rcontext.pop('__error__', None)",
             cls=ErrorInfo,
             handler=load("on_error_handler"),
             key=ast.Constant(node.name),
